@@ -532,6 +532,11 @@ def binop(op, a, b):
             return binop("add", a.args[0], K(a.args[1].args[0] + c, bits))
         if op in ("and", "or", "xor") and a.op == op and a.args[1].op == "k":
             return binop(op, a.args[0], K(_fold2(op, a.args[1], b, bits), bits))
+        if op == "and":
+            km, kv = known_bits(a)
+            cleared = ~c & mask(bits)
+            if cleared & ~(km & ~kv) == 0:
+                return a  # every bit the mask clears is already known to be zero
     if op == "sub" and a is b:
         return K(0, bits)
     if op == "xor" and a is b:
